@@ -73,7 +73,18 @@ def check_config(ctx, F, tag):
     # the builder is moved into a local; find it: the local of type SparseBuilder that is `mut`
     bl = [i for i, l in enumerate(b.locals) if l["ty"]["s"] == SB and i != 1]
     owner = bl[0] if bl else 1
-    sites = mutation_sites(b, owner, by_ref=False)
+    # ... or taken apart: locals that receive a field moved out of the builder (`let SparseBuilder { data: mut result, high, .. } = builder`)
+    owners = {owner, 1}
+    for bi, si, st in b.stmts():
+        if st["s"] == "assign" and not st["lhs"]["p"] and st["rv"]["r"] == "use":
+            q = operand_place(st["rv"]["o"])
+            if q is not None and q["l"] in owners and q["p"] and all(isinstance(e, dict) and "f" in e for e in q["p"]):
+                owners.add(st["lhs"]["l"])
+    sites = []
+    for o in sorted(owners):
+        for x in mutation_sites(b, o, by_ref=False):
+            if x not in sites:
+                sites.append(x)
     errs = err_blocks(b)
     can = b.can_reach(errs)
     bad = [(bi, k, d) for bi, k, d, sp in sites if bi in can]
